@@ -175,7 +175,7 @@ func runSchedule(fen, goCmd string, at phase, cmds []string, holdMs int) schedRe
 			if c == "isready" {
 				res.expectedReady++
 			}
-			if !timedCommand(c, 300*time.Millisecond) {
+			if !timedCommand(c, 1500*time.Millisecond) {
 				res.blocked = append(res.blocked, c)
 			}
 		}
@@ -187,7 +187,7 @@ func runSchedule(fen, goCmd string, at phase, cmds []string, holdMs int) schedRe
 			if c == "isready" {
 				res.expectedReady++
 			}
-			if !timedCommand(c, 300*time.Millisecond) {
+			if !timedCommand(c, 1500*time.Millisecond) {
 				res.blocked = append(res.blocked, c)
 			}
 		}
@@ -201,7 +201,7 @@ func runSchedule(fen, goCmd string, at phase, cmds []string, holdMs int) schedRe
 	case <-time.After(6 * time.Second):
 		res.finished = false
 		// rescue so that the process can go on: try a stop, then give up on this schedule
-		timedCommand("stop", 300*time.Millisecond)
+		timedCommand("stop", 1500*time.Millisecond)
 		select {
 		case <-exited:
 		case <-time.After(3 * time.Second):
@@ -225,7 +225,7 @@ func runSchedule(fen, goCmd string, at phase, cmds []string, holdMs int) schedRe
 		}
 	}
 	n := oc.count("readyok")
-	res.afterReadyOK = timedCommand("isready", 500*time.Millisecond) && waitFor(oc, "readyok", n+1, time.Second)
+	res.afterReadyOK = timedCommand("isready", 1500*time.Millisecond) && waitFor(oc, "readyok", n+1, time.Second)
 	// ... on another (non-terminal) position, and it must be served like in a fresh session: a stop token or flag left over
 	// from the schedule would cut it short
 	const probeFen = "r3k2r/p1ppqpb1/bn2pnp1/3PN3/1p2P3/2N2Q1p/PPPBBPPP/R3K2R w KQkq - 0 1"
@@ -436,13 +436,13 @@ func init() {
 		oc := startCollect()
 		var blocked []string
 		for _, c := range []string{"stop", "stop", "isready", "stop", "position startpos", "stop", "isready", "go depth 1"} {
-			if !timedCommand(c, 500*time.Millisecond) {
+			if !timedCommand(c, 1500*time.Millisecond) {
 				blocked = append(blocked, c)
 			}
 		}
 		time.Sleep(300 * time.Millisecond)
 		for _, c := range []string{"stop", "stop", "isready"} {
-			if !timedCommand(c, 500*time.Millisecond) {
+			if !timedCommand(c, 1500*time.Millisecond) {
 				blocked = append(blocked, c)
 			}
 		}
